@@ -27,6 +27,9 @@ CHECKS = {
  "C04": ("Bounded exhaustive exploration: every function body (up to renaming of the two labels) built from {A:, B:, goto A, goto B, if c goto A, if c goto B} and nested blocks with at most 6 statements and nesting depth 3 (quick; thorough: 7 statements, and 8 at depth 2), in three variants (void function; function with a return value where B is the special label `return`; a second function holding labels of the same names), is compiled by the real first-generation pipeline and compared with the reference label-scoping model: accepted iff no illegal goto and no clash; E400 present iff an illegal goto exists and only on lines of illegal gotos; E420 present iff a clash exists and only on clashing labels; no other code.",
          "Trusted: model/labels.rs (transcribed from docs/features.md and docs/errors.md). Not covered: bodies beyond the size bound (the property text's random bodies up to 40 statements).",
          "explicit-state enumeration of all programs of a small scope with symmetry reduction, verdicts compared with a reference model", "5 (C04)"),
+ "C06": ("Bounded exhaustive exploration: every statement tree over {block, if, if-else (branches range over every statement form, so naked assignments, naked loops, naked ifs in then- and else-position, else-if chains, labels as branches), goto, loop, assignment, label} with at most 6 (quick) / 7 (thorough) statements and nesting depth 4, inside a function whose last statement is the label all gotos name. The real first-generation pipeline's verdict, the codes E800/E801/E840 with the lines they point at, and for accepted programs the exact set of L1800 lint lines are compared with the reference placement model.",
+         "Trusted: the placement model in checks/c06.rs (from docs/features.md, docs/errors.md). Violations inside a branch that is itself rejected with E840 need not be reported separately (masking). Not covered: trees beyond the size bound.",
+         "explicit-state enumeration of all statement trees of a small scope, verdicts compared with a reference model", "5 (C06)"),
 }
 
 NOT_YET = {}
